@@ -15,31 +15,47 @@ Proof.
     [destruct (assoc t special_chars); reflexivity|exact st_bstr_eqb_true|vm_compute; reflexivity|vm_compute; reflexivity].
 Qed.
 
-(* ---- isOneOf, inStringSlice ---- *)
-Lemma one_of_matches_source (c : N) (l : list N) : one_of c l = src_parse_isOneOf (Z.of_N c) (map Z.of_N l).
+(* ---- isOneOf, inStringSlice ----
+   Stated through go_res (the source never panics and answers ...): an early return out of a range loop is translated
+   through List.find and is total, a flag with break or an index loop with continue goes through go_flow and is typed
+   `option`.  The proofs follow the MODEL's recursion (one element at a time, the test decided on the model's side)
+   and never look at the shape of the source's loop. *)
+Lemma one_of_matches_source (c : N) (l : list N) :
+  go_res (src_parse_isOneOf (Z.of_N c) (map Z.of_N l)) = Some (one_of c l).
 Proof.
-  unfold one_of, src_parse_isOneOf. rewrite find_existsb, existsb_map.
-  apply st_existsb_ext. intros a. lia.
+  unfold go_res, one_of, src_parse_isOneOf. cbv zeta.
+  induction l as [|a l IH]; [reflexivity|].
+  simpl. destruct (N.eqb c a) eqn:E; st_decide_ifs; [reflexivity|exact IH].
 Qed.
 
 (* parseAttrs tests inStringSlice(name, allowedNames); Model/Parser.v attrs_loop writes the test inline *)
 Lemma attr_allowed_matches_source (item : bstr) (group : list bstr) :
-  existsb (bstr_eqb item) group = src_parse_inStringSlice item group.
+  go_res (src_parse_inStringSlice item group) = Some (existsb (bstr_eqb item) group).
 Proof.
-  unfold src_parse_inStringSlice. rewrite find_existsb. apply st_existsb_ext. intros a. apply st_bstr_eqb_sym.
+  unfold go_res, src_parse_inStringSlice. cbv zeta.
+  induction group as [|a l IH]; [reflexivity|].
+  simpl. rewrite ?(st_bstr_eqb_sym a item).
+  destruct (bstr_eqb item a) eqn:E; cbn [negb orb]; [reflexivity|exact IH].
 Qed.
 
 (* ---- parseAutoescape: the attribute text -> mode code, anything else t.errorf ---- *)
 Lemma go_lookup_s_attr (k : bstr) (attrs : list (bstr * bstr)) : go_lookup_s k attrs [] = attr_or_empty k attrs.
 Proof. reflexivity. Qed.
 
+(* Both sides are functions of the attribute's text v that only compare v with literals: a switch, a chain of ifs, or a
+   lookup in a table of the settings (whatever its name), in any order.  v is compared with every literal that occurs;
+   where it is one of them both sides are evaluated, and where it is none of them every test is false. *)
 Lemma autoescape_table_matches_source (attrs : list (bstr * bstr)) :
   option_map Z.of_N (assoc_s (attr_or_empty k_autoescape attrs) autoescape_attr_table) = src_parse_tree_parseAutoescape attrs.
 Proof.
   unfold src_parse_tree_parseAutoescape.
   change [97; 117; 116; 111; 101; 115; 99; 97; 112; 101] with k_autoescape.
   rewrite go_lookup_s_attr. cbv zeta. generalize (attr_or_empty k_autoescape attrs) as v. intros v.
-  (* both sides are chains of tests of v against the same five literals, in different orders *)
+  st_unfold_tables. cbv [go_lookup_s go_has_s autoescape_attr_table assoc_s].
+  repeat match goal with
+         | |- context [bstr_eqb ?lit v] =>
+             lazymatch lit with v => fail | _ => rewrite (st_bstr_eqb_sym lit v) end
+         end.
   repeat match goal with
          | |- context [bstr_eqb v ?lit] =>
              lazymatch lit with
@@ -49,8 +65,6 @@ Proof.
                     [apply st_bstr_eqb_true in E; subst v; vm_compute; reflexivity|]
              end
          end.
-  cbv [autoescape_attr_table assoc_s].
-  repeat match goal with H : bstr_eqb v _ = false |- _ => rewrite H; clear H end.
   reflexivity.
 Qed.
 
